@@ -9,6 +9,7 @@
 -/
 import MbVerif.Framework
 import MbVerif.Spec.C13
+import MbVerif.Trace
 
 namespace Mb
 namespace C06
@@ -65,6 +66,109 @@ def closedForm (ts : List Trans) : List (Nat × Nat) × Nat :=
 
 /-- the outcome of the draw selects the transition -/
 def pick (ts : List Trans) (k : Nat) : Option Nat := sampleLoop (draw k) (.fin 0) ts
+
+end C06
+end Mb
+
+/-! ### Framework level: one fresh draw per transition lookup
+
+The statement above is about `State::sample_state` in isolation.  Inside the framework the same
+property needs every transition lookup to consume a draw *of its own*: a lookup that re-uses the
+draw of another lookup (say the outer transition's draw for the CounterZero transition it triggers)
+still "follows the probabilities" call by call, but the joint outcome does not — two 1/2 choices
+would be taken together on half of all outputs instead of a quarter.  The monitor below reads the
+hooked log of a call: directly after every `trans mi ev st` entry whose state declares a
+transition list for the event there must be one `draw` entry, and a `sampled mi ev tgt` entry
+follows exactly when the declared probabilities assign `tgt` to that draw; a lookup in END or
+without a list draws nothing; draws and samplings do not occur anywhere else. -/
+namespace Mb
+namespace C06
+
+/-- the transition list of machine `mi`, state `st`, event `ev` (none = no lookup possible) -/
+def lookup (ms : List Machine) (mi ev st : Nat) : Option (List Trans) :=
+  if st = STATE_END then none else
+  match ms[mi]? with
+  | none => none
+  | some m => match m.states[st]? with
+    | none => none
+    | some s => match s.transitions[ev]? with
+      | some (some v) => some v
+      | _ => none
+
+/-- what the monitor waits for while it reads the log -/
+inductive Pending where
+  | idle
+  /-- a lookup with a declared list was logged: a draw must follow -/
+  | needDraw (mi ev st : Nat) (v : List Trans)
+  /-- lookup without a list (or in END): neither a draw nor a sampling of that lookup may follow -/
+  | noLookup (mi ev st : Nat)
+  /-- the draw was read: `exp` is the target the declared probabilities assign to it -/
+  | afterDraw (mi ev st : Nat) (bits : F32) (exp : Option Nat)
+  deriving Repr, Inhabited
+
+/-- close a pending lookup at an entry that is not the one it waits for -/
+def closePending : Pending → Option String
+  | .needDraw mi ev st _ => some s!"machine {mi}: the lookup for event {ev} in state {st} did not make a draw of its own"
+  | .afterDraw mi ev st bits (some tgt) =>
+    some s!"machine {mi} event {ev} state {st}: draw {bits.toNat} selects target {tgt} by the declared probabilities, but no transition was taken"
+  | _ => none
+
+def stepDraws (ms : List Machine) (p : Pending) (e : LogEntry) : Except String Pending :=
+  match e with
+  | .trans mi ev st =>
+    match closePending p with
+    | some err => .error err
+    | none => match lookup ms mi ev st with
+      | some v => .ok (.needDraw mi ev st v)
+      | none => .ok (.noLookup mi ev st)
+  | .draw bits =>
+    match p with
+    | .needDraw mi ev st v => .ok (.afterDraw mi ev st bits (sampleState v bits))
+    | .noLookup mi ev st => .error s!"machine {mi}: a draw was made for event {ev} in state {st} which declares no transitions (or is END)"
+    | _ => .error "a uniform draw that belongs to no transition lookup"
+  | .sampled mi' ev' tgt' =>
+    match p with
+    | .afterDraw mi ev st bits (some tgt) =>
+      if mi' = mi ∧ ev' = ev ∧ tgt' = tgt then .ok .idle
+      else .error s!"machine {mi} event {ev} state {st}: draw {bits.toNat} selects target {tgt} by the declared probabilities, the log has target {tgt'} (machine {mi'}, event {ev'})"
+    | .afterDraw mi ev st bits none =>
+      .error s!"machine {mi} event {ev} state {st}: draw {bits.toNat} selects no target by the declared probabilities, but target {tgt'} was taken (machine {mi'}, event {ev'})"
+    | .noLookup mi ev st => .error s!"machine {mi}: a transition was taken on event {ev} in state {st} which declares none (target {tgt'})"
+    | _ => .error s!"machine {mi'}: a transition on event {ev'} without a lookup and a draw of its own"
+  | _ =>
+    match closePending p with
+    | some err => .error err
+    | none => .ok .idle
+
+def checkDrawsFrom (ms : List Machine) : Pending → List LogEntry → Option String
+  | p, [] => closePending p
+  | p, e :: rest =>
+    match stepDraws ms p e with
+    | .error err => some err
+    | .ok p' => checkDrawsFrom ms p' rest
+
+def checkDraws (ms : List Machine) (log : List LogEntry) : Option String := checkDrawsFrom ms .idle log
+
+/-- the draw is one of the `2^23` values `k · 2^-23`, `k < 2^23` -/
+def drawInRange (bits : F32) : Bool :=
+  match Fp.val32 bits with
+  | .fin q => decide (0 ≤ q) && decide (q < 1) && decide ((q * (N : Rat)).den = 1)
+  | _ => false
+
+def fwMonitor (t : FwTrace) : Option String :=
+  let rec go (i : Nat) : List CallRec → Option String
+    | [] => none
+    | c :: cs =>
+      if c.res != .ok then none else
+      match checkDraws t.machines c.log with
+      | some e => some s!"call {i}: {e}"
+      | none =>
+        match c.log.find? (fun e => match e with | .draw b => !drawInRange b | _ => false) with
+        | some (.draw b) => some s!"call {i}: draw {b.toNat} is not one of the 2^23 values k/2^23 in [0,1)"
+        | _ => go (i + 1) cs
+  match checkDraws t.machines t.log0 with
+  | some e => some s!"new: {e}"
+  | none => go 0 t.calls
 
 end C06
 end Mb
